@@ -1,9 +1,77 @@
-/- line protocol stub for component `Arr` (filled in by the component's owner) -/
+import Tulz.Model.ArrayStore
+import Tulz.Drv.Util
+/- line protocol for the Array model:
+     arr cfg <cls 0|1> <number of variable slots>      start a history (also `arr reset`)
+     arr <op> <args…>  ->  `<result> | d:<net live-value change>`   or   `!<error>`
+   driver-only queries: `live`, `peek id` (contents with `?` for indeterminate elements),
+   `alias a b` (do two variables point to the same block) -/
 namespace Tulz.Drv.Arr
+open Tulz
 
-abbrev State := Unit
-def init : State := ()
+structure State where
+  cls : Bool := true
+  st : AStore Nat := AStore.init 0
 
-def step (s : State) (_args : List String) : State × String := (s, "bad-op")
+def init : State := {}
+
+def parseOp : List String → Option (AOp Nat)
+  | "ptr" :: id :: n :: vs => do pure (.ptr (← id.toNat?) (← parseNats vs) (← n.toNat?))
+  | "init" :: id :: vs => do pure (.init (← id.toNat?) (← parseNats vs))
+  | ["size", id, n] => do pure (.size (← id.toNat?) (← n.toNat?))
+  | ["fill", id, n, v] => do pure (.fill (← id.toNat?) (← n.toNat?) (← v.toNat?))
+  | ["dflt", id] => do pure (.dflt (← id.toNat?))
+  | ["copy", d, s] => do pure (.copy (← d.toNat?) (← s.toNat?))
+  | ["mctor", d, s] => do pure (.mctor (← d.toNat?) (← s.toNat?))
+  | ["cassign", d, s] => do pure (.cassign (← d.toNat?) (← s.toNat?))
+  | ["massign", d, s] => do pure (.massign (← d.toNat?) (← s.toNat?))
+  | ["swap", a, b] => do pure (.swap (← a.toNat?) (← b.toNat?))
+  | ["resize", id, n] => do pure (.resize (← id.toNat?) (← n.toNat?))
+  | ["resizev", id, n, v] => do pure (.resizeV (← id.toNat?) (← n.toNat?) (← v.toNat?))
+  | ["resizeself", id, n, i] => do pure (.resizeSelf (← id.toNat?) (← n.toNat?) (← i.toNat?))
+  | ["set", id, i, v] => do pure (.set (← id.toNat?) (← i.toNat?) (← v.toNat?))
+  | ["get", id, i] => do pure (.get (← id.toNat?) (← i.toNat?))
+  | ["iter", id] => do pure (.iter (← id.toNat?))
+  | ["len", id] => do pure (.len (← id.toNat?))
+  | ["front", id] => do pure (.front (← id.toNat?))
+  | ["back", id] => do pure (.back (← id.toNat?))
+  | ["drop", id] => do pure (.drop (← id.toNat?))
+  | _ => none
+
+def showOut : AOut Nat → String
+  | .unit => "ok"
+  | .val v => "v=" ++ toString v
+  | .vals l => "l=" ++ joinNat l
+  | .num n => "n=" ++ toString n
+
+def showOpt : Option Nat → String
+  | some v => toString v
+  | none => "?"
+
+def step (s : State) (args : List String) : State × String :=
+  match args with
+  | ["reset"] => ({}, "ok")
+  | ["cfg", c, nv] =>
+    match nv.toNat? with
+    | some n => ({ cls := c == "1", st := AStore.init n }, "ok")
+    | none => (s, "bad-op")
+  | ["live"] => (s, "live=" ++ joinNat (sortNat s.st.liveVals))
+  | ["peek", id] =>
+    match id.toNat? >>= s.st.vars.find with
+    | some v => (s, "l=" ++ " ".intercalate (v.arr.contents.map showOpt))
+    | none => (s, "!BAD_VAR")
+  | ["alias", a, b] =>
+    match a.toNat? >>= s.st.vars.find, b.toNat? >>= s.st.vars.find with
+    | some x, some y => (s, if x.blk.isSome && x.blk == y.blk then "b=1" else "b=0")
+    | _, _ => (s, "!BAD_VAR")
+  | ["heap"] =>                          -- blocks currently allocated
+    (s, s!"owned={s.st.heap.owned.length}")
+  | _ =>
+  match parseOp args with
+  | none => (s, "bad-op")
+  | some op =>
+    match AStore.step s.cls s.st op with
+    | .error e => (s, "!" ++ e.toString)
+    | .ok (st', out) =>
+      ({ s with st := st' }, showOut out ++ " | " ++ delta s.st.liveVals st'.liveVals)
 
 end Tulz.Drv.Arr
